@@ -185,4 +185,12 @@ pub fn c10_timestamp_total_and_bound(p: &ProofOfKnowledgeTimestamp, pk: PublicKe
 {
     let v = p.verify(pk, msg, timeout_ms);          // must be callable with NO precondition
     assert(v is Ok ==> pok_eq(pok_u(p.proof), pok_v(p.proof), pk.0, compute_y_spec(pok_u(p.proof), p.timestamp), msg@, scheme_dst(pok_scheme(p.proof))));
+    // the timeout, for every delay: acceptance means that at the instant the clock was read the
+    // timestamp was not in the future and at most `timeout` whole milliseconds old ...
+    assert(v is Ok && timeout_ms is Some ==> exists|now: int| #[trigger] clock_reading(now) && ts_fresh(now, p.timestamp, timeout_ms->Some_0));
+    // ... and a proof that satisfies the equation is refused ONLY because it was stale or from the future
+    assert(v is Err && timeout_ms is Some
+        && pok_guards(pok_u(p.proof), pok_v(p.proof), pk.0, compute_y_spec(pok_u(p.proof), p.timestamp))
+        && pok_eq(pok_u(p.proof), pok_v(p.proof), pk.0, compute_y_spec(pok_u(p.proof), p.timestamp), msg@, scheme_dst(pok_scheme(p.proof)))
+        ==> exists|now: int| #[trigger] clock_reading(now) && !ts_fresh(now, p.timestamp, timeout_ms->Some_0));
 }
